@@ -22,6 +22,10 @@ CHECKS = {
    text='From every S2/S3 start (cross-model and cross-app FK/O2O/M2M, prefix model names, single-character app label) all sequences up to depth 2 (quick) / 3 (thorough) of RenameModel, RenameAppLabel, RenameField, DeleteField, DeleteModel, DeleteApplication, AddField; after every transition no relation in the simulated signature may dangle or mention a renamed-away name, and every database foreign key must point at an existing table/column and validate.',
    note='Crashes/SQL errors of a transition are C01 business. Rows (R2) are present so foreign_key_check is meaningful.',
    design='3/C11'),
+ 'C17': dict(level='fault_enumeration', technique='acceptor over the interleaved signal/statement log of every fault-free and every faulted run of the C07 enumeration plus no-op and two-app runs',
+   text='A small acceptor checks every run: evolving at most once and before any change; exactly one of evolved/evolving_failed, evolved only after the version row is saved and after the last change; applying_*/creating_models paired with their counterparts unless the run fails in between; every non-bookkeeping effect statement lies between a pair; _evolve_lock restored.',
+   note='Deferred index SQL for new models and PRAGMA statements are not attributed to a signal pair; migration signals are exercised by C10.',
+   design='3/C17'),
  'C18': dict(level='model_checking', technique='same exhaustive path enumeration as C03; oracle on CREATE TABLE "TEMP_TABLE" counts per table in the statement traces',
    text='On every enumerated path the number of table rebuilds per table in the batched run (one AppMutator, and the Evolver pipeline) is compared with the stepwise run and with the bound of one rebuild per maximal run of consecutive mergeable same-model mutations.',
    note='Rebuilds are recognised as CREATE TABLE "TEMP_TABLE" + RENAME in the connection.execute_wrapper trace; model identity follows RenameModel, ambiguous table-name reuse is skipped and counted.',
@@ -30,6 +34,10 @@ CHECKS = {
    text='For every generated history V0..Vn (n=2 quick, 3 thorough; every evolution in the app SEQUENCE, discovered the normal way) and every start point, the database is installed fresh through the real Evolver and then upgraded along EVERY chain of later versions (direct and stepwise are the extremes); all final states must have the schema of a fresh install, equal rows per start point, exactly the SEQUENCE recorded once, a stored signature with empty Diff against the current models, and a further run must report nothing to do and execute no SQL.',
    note='Histories whose single steps are not C01-clean, and jumps whose batched AppMutator run differs from stepwise (C03), are outside the domain and counted. D3/D4 run on a deterministic stride of the histories, D2 on all.',
    design='3/C04'),
+ 'C07': dict(level='fault_enumeration', technique='exhaustive fault injection: every generated single-batch evolution x every effect-statement index, on the real Evolver pipeline against SQLite, with snapshot comparison and retry',
+   text='Every reference-valid evolution of the stated alphabets and depths (optionally with a brand-new model so that model creation and deferred SQL are part of the run) is executed through Evolver+EvolveAppTask; then for EVERY effect statement k of the traced run an OperationalError is injected at k; afterwards schema, rows, recorded evolutions, stored signature and migrations must equal the pre-run state, the error must be an EvolutionExecutionError naming statement k, and a fault-free retry must reach the uninterrupted result.',
+   note='Faults are raised from connection.execute_wrapper; statements on the bookkeeping tables, django_content_type and PRAGMA foreign_keys are not fault targets (outside the batch). Retry runs in the same process.',
+   design='3/C07'),
  'C09': dict(level='model_checking', technique='exhaustive enumeration of all digraphs <=N nodes on the real DependencyGraph + exhaustive dependency configurations through the real Evolver',
    text='All labelled digraphs on <=4 (quick) / <=5 (thorough) nodes through the real DependencyGraph.get_ordered, checked against an independent Kahn oracle; generated multi-app projects with every single-dependency assignment through the real Evolver, order observed from signals.',
    note='Independent 15-line Kahn implementation is the trusted oracle.',
